@@ -122,3 +122,77 @@ Example match_optimal_witness :
   /\ lcs_matchingb Nat.eqb [1; 2; 1] [1; 1; 2] [(0, 1); (1, 2)] = true
   /\ lcs_matchingb Nat.eqb [1; 2; 1] [1; 1; 2] [(0, 0)] = false.
 Proof. vm_compute. repeat split; reflexivity. Qed.
+
+(** * ignore_case with [str::to_lowercase] inside the model (UCD_Model.v; pinned facts about it in
+      UCD_Props.v).  [match_words_ic a b ic] is [match_words(a, b, ic)] with the code's word relation
+      applied pair by pair: [ci_eqb x y] = "[to_lowercase x] equals [to_lowercase y]" for [ic = true],
+      equality otherwise.  No oracle, no premise on the relation is left. *)
+From TU Require Import UCD_Model UCD_Lower C18_Lower C18_LowerProofs.
+Close Scope N_scope.   (* opened by UCD_Model; this file counts in nat *)
+
+(** matching under the pairwise relation = matching the lower-cased words exactly (what [run_C18u] computes) *)
+Theorem match_ic_keys : forall xs ys,
+  match_keys ci_eqb xs ys = match_keys str_eqb (map to_lowercase xs) (map to_lowercase ys).
+Proof. exact (match_keys_map to_lowercase str_eqb). Qed.
+Print Assumptions match_ic_keys.
+
+(** never the error value; the counts are the numbers of ASCII-whitespace-separated words *)
+Theorem match_words_ic_counts : forall a b ic,
+  exists M, match_words_ic a b ic = Some (M, length (split_ascii_ws a), length (split_ascii_ws b))
+    /\ match_keys (word_rel ic) (split_ascii_ws a) (split_ascii_ws b) = Some M
+    /\ match_keys str_eqb (keys_of ic (split_ascii_ws a)) (keys_of ic (split_ascii_ws b)) = Some M.
+Proof. exact match_words_ic_spec_l. Qed.
+Print Assumptions match_words_ic_counts.
+
+(** the matching, on the texts themselves: strictly increasing, every pair indexes two words whose
+    lower-cased forms are equal (equal words when [ic = false]), and no strictly increasing list of such
+    pairs is longer (LCS optimality under the case-insensitive relation) *)
+Theorem match_words_ic_optimal : forall a b ic M na nb,
+  match_words_ic a b ic = Some (M, na, nb) ->
+  let wa := split_ascii_ws a in let wb := split_ascii_ws b in
+  let rel := fun x y : str => if ic then to_lowercase x = to_lowercase y else x = y in
+  na = length wa /\ nb = length wb
+  /\ StronglySorted (fun p q : nat * nat => fst p < fst q /\ snd p < snd q) M
+  /\ Forall (fun p => exists x y, nth_error wa (fst p) = Some x /\ nth_error wb (snd p) = Some y /\ rel x y) M
+  /\ forall M',
+       StronglySorted (fun p q : nat * nat => fst p < fst q /\ snd p < snd q) M' ->
+       Forall (fun p => exists x y, nth_error wa (fst p) = Some x /\ nth_error wb (snd p) = Some y /\ rel x y) M' ->
+       length M' <= length M.
+Proof. exact match_words_ic_optimal_l. Qed.
+Print Assumptions match_words_ic_optimal.
+
+(** the relation is an equivalence (UCD_Props.ci_eqb_equivalence), so a text matched with itself gives the
+    diagonal in both modes *)
+Theorem match_words_ic_self : forall a ic M na nb,
+  match_words_ic a a ic = Some (M, na, nb) -> M = map (fun i => (i, i)) (seq 0 (length (split_ascii_ws a))).
+Proof. exact match_words_ic_self_l. Qed.
+Print Assumptions match_words_ic_self.
+
+(** the executable statement with the model's own relation holds of the model's own output — for EVERY
+    input (the premise [keys_ok] of [check_run] is gone: there is no oracle to be well-formed) *)
+Theorem check_run_u : forall v, check_C18u v (run_C18u v) = true.
+Proof. exact check_run_u_l. Qed.
+Print Assumptions check_run_u.
+
+(** what [run_C18u] returns in fields 0 and 3: the matchings of [match_words_ic] / [match_words] *)
+Theorem run_C18u_spec : forall v,
+  exists M mx, match_words_ic (v_str (v_nth 0 v)) (v_str (v_nth 1 v)) (v_bool (v_nth 2 v))
+               = Some (M, length (split_ascii_ws (v_str (v_nth 0 v))), length (split_ascii_ws (v_str (v_nth 1 v))))
+    /\ match_words (v_str (v_nth 0 v)) (v_str (v_nth 1 v))
+       = Some (mx, length (split_ascii_ws (v_str (v_nth 0 v))), length (split_ascii_ws (v_str (v_nth 1 v))))
+    /\ v_nth 0 (run_C18u v) = list_v pairv M /\ v_nth 3 (run_C18u v) = list_v pairv mx.
+Proof. exact run_C18u_matching. Qed.
+Print Assumptions run_C18u_spec.
+
+(** this property's word splitting is the shared [UCD_Model.split_by] with the ASCII separators *)
+Theorem split_ascii_is_split_by : forall s, split_by is_ascii_ws s = split_ascii_ws s.
+Proof. exact split_by_ascii. Qed.
+Print Assumptions split_ascii_is_split_by.
+
+(** İ and i + U+0307 are related (length-changing lower-casing); ΑΣ and ας are related (final sigma);
+    ΑΣ and ασ are not *)
+Example ci_witness :
+  ci_eqb [304]%N [105; 775]%N = true /\ ci_eqb [913; 931]%N [945; 962]%N = true
+  /\ ci_eqb [913; 931]%N [945; 963]%N = false
+  /\ match_words_ic [304; 32; 120]%N [120; 32; 105; 775; 32; 88]%N true = Some ([(0, 1); (1, 2)], 2, 3).
+Proof. vm_compute. repeat split; reflexivity. Qed.
